@@ -16,6 +16,7 @@ from mc import core
 
 PROPERTY = 'C05'
 GUARD = ['numqi.entangle', 'numqi.utils']  # argument-immutability oracle (mc.seams.ImmutabilityGuard)
+GUARD_LAYOUT = ['numqi.entangle', 'numqi.utils']  # memory-layout metamorphic oracle (same wrapper)
 LEVEL = 'model_checking'
 RULE = ('state = separable density matrix reached by mix-in events from a pure product state of the local alphabets (key = rounded '
         'matrix); all event sequences up to the depth bound are enumerated; transition = evaluation of one criterion on one state; '
